@@ -886,7 +886,7 @@ func exec(in In) vh.Result {
 			lo = append(lo, int64(math.Floor(l*1e6)))
 			hi = append(hi, int64(math.Ceil(h*1e6)))
 		}
-		return vh.Result{Term: cf.App("CSort", cf.Bool(in.Desc), cf.ListOf(lo, zi), cf.ListOf(hi, zi), cf.ListOf(order, cf.Int)),
+		return vh.Result{Term: cf.App("CSort", cf.Bool(in.Desc), cf.ListOf(lo, zi), cf.ListOf(hi, zi), cf.ListOf(order, func(i int) cf.T { return zi(int64(i)) })),
 			Nontrivial: !sort.IntsAreSorted(order), Hist: []string{"sort:" + in.Engine}}
 	}
 	return vh.Result{Skip: true}
@@ -911,5 +911,8 @@ func main() {
 			"API level (scorch, scorch+s2 plugin, upsidedown; 4-9 documents with 0-3 points each, several batches): bounding boxes tiny to world-wide, date-line crossing, edges on the coordinate bounds or on decoded cell corners, probe points at edge +- {0,3e-8..1e-3} degrees, on level-14 cell boundaries, at +-180/+-90; distance queries 1 m .. 20000 km incl. pole-containing and date-line crossing circles, probe points at radius*(1 +- {0,1e-9..0.3}); simple convex/concave polygons of either orientation with probes near vertices and edges; distance sort asc/desc on single-valued documents; " +
 			"non-trivial: non-zero function inputs, range cases with both term lists non-empty, scenes whose hits are neither none nor all or that contain a multi-valued document, sorts that reorder",
 		ShardSize: 20,
+		// every number of a case is printed in constructor form; with Z_scope open Coq 8.16 takes ~50 ms
+		// to interpret each deeply nested constructor term, with it closed ~1 ms
+		Preamble: "Local Close Scope Z_scope.\n",
 	}, gen, exec)
 }
